@@ -31,3 +31,17 @@ fn hexval(c: u8) -> Option<u8> {
 pub fn is_legal_unescaped(b: u8) -> bool {
     (0x20..=0x7e).contains(&b) && b != b'%'
 }
+
+/// Percent-encode what the gRPC spec requires in `grpc-message` (everything outside
+/// 0x20..=0x7E, plus '%'), upper-case hex.
+pub fn encode_minimal(msg: &str) -> String {
+    let mut out = String::new();
+    for b in msg.bytes() {
+        if (0x20..=0x7e).contains(&b) && b != b'%' {
+            out.push(b as char);
+        } else {
+            out.push_str(&format!("%{b:02X}"));
+        }
+    }
+    out
+}
